@@ -72,13 +72,17 @@ class BlackScholes(Model):
               dividend_rate: float,
               option_type: OptionTypes):
 
+        # resolve a DEFAULT implementation for THIS call only: the model may be shared
+        # between European and American products
+        bs_type = self.bs_type
+
         if option_type == OptionTypes.EUROPEAN_CALL \
                 or option_type == OptionTypes.EUROPEAN_PUT:
 
-            if self.bs_type is BlackScholesTypes.DEFAULT:
-                self.bs_type = BlackScholesTypes.ANALYTICAL
+            if bs_type is BlackScholesTypes.DEFAULT:
+                bs_type = BlackScholesTypes.ANALYTICAL
 
-            if self.bs_type == BlackScholesTypes.ANALYTICAL:
+            if bs_type == BlackScholesTypes.ANALYTICAL:
 
                 v = bs_value(spot_price,
                              time_to_expiry,
@@ -90,7 +94,7 @@ class BlackScholes(Model):
 
                 return v
 
-            elif self.bs_type == BlackScholesTypes.CRR_TREE:
+            elif bs_type == BlackScholesTypes.CRR_TREE:
 
                 v = crr_tree_val_avg(spot_price,
                                      risk_free_rate,
@@ -103,7 +107,7 @@ class BlackScholes(Model):
 
                 return v
 
-            elif self.bs_type == BlackScholesTypes.FINITE_DIFFERENCE:
+            elif bs_type == BlackScholesTypes.FINITE_DIFFERENCE:
 
                 v = black_scholes_fd(spot_price=spot_price,
                                      time_to_expiry=time_to_expiry,
@@ -116,7 +120,7 @@ class BlackScholes(Model):
 
                 return v
 
-            elif self.bs_type == BlackScholesTypes.PSOR:
+            elif bs_type == BlackScholesTypes.PSOR:
 
                 v = black_scholes_fd_PSOR(spot_price=spot_price,
                                           time_to_expiry=time_to_expiry,
@@ -129,7 +133,7 @@ class BlackScholes(Model):
 
                 return v
 
-            elif self.bs_type == BlackScholesTypes.LSMC:
+            elif bs_type == BlackScholesTypes.LSMC:
 
                 print("LSMC Model", self)
                 poly_degree = self.poly_degree
@@ -158,10 +162,10 @@ class BlackScholes(Model):
         elif option_type == OptionTypes.AMERICAN_CALL \
                 or option_type == OptionTypes.AMERICAN_PUT:
 
-            if self.bs_type is BlackScholesTypes.DEFAULT:
-                self.bs_type = BlackScholesTypes.CRR_TREE
+            if bs_type is BlackScholesTypes.DEFAULT:
+                bs_type = BlackScholesTypes.CRR_TREE
 
-            if self.bs_type == BlackScholesTypes.BARONE_ADESI:
+            if bs_type == BlackScholesTypes.BARONE_ADESI:
 
                 if option_type == OptionTypes.AMERICAN_CALL:
                     phi = +1
@@ -178,7 +182,7 @@ class BlackScholes(Model):
 
                 return v
 
-            elif self.bs_type == BlackScholesTypes.CRR_TREE:
+            elif bs_type == BlackScholesTypes.CRR_TREE:
 
                 v = crr_tree_val_avg(spot_price,
                                      risk_free_rate,
@@ -191,7 +195,7 @@ class BlackScholes(Model):
 
                 return v
 
-            elif self.bs_type == BlackScholesTypes.LSMC:
+            elif bs_type == BlackScholesTypes.LSMC:
 
                 poly_degree = 3
                 fit_type = FIT_TYPES.HERMITE_E
@@ -211,7 +215,7 @@ class BlackScholes(Model):
                                 seed=self.seed)
 
                 return v
-            elif self.bs_type == BlackScholesTypes.Bjerksund_Stensland:
+            elif bs_type == BlackScholesTypes.Bjerksund_Stensland:
                 v = bjerksund_stensland_value(spot_price,
                                               time_to_expiry,
                                               strike_price,
@@ -221,7 +225,7 @@ class BlackScholes(Model):
                                               option_type.value)
                 return v
 
-            elif self.bs_type == BlackScholesTypes.FINITE_DIFFERENCE:
+            elif bs_type == BlackScholesTypes.FINITE_DIFFERENCE:
                 v = black_scholes_fd(spot_price=spot_price,
                                      time_to_expiry=time_to_expiry,
                                      strike_price=strike_price,
@@ -232,7 +236,7 @@ class BlackScholes(Model):
                                      **self.params)
                 return v
 
-            elif self.bs_type == BlackScholesTypes.PSOR:
+            elif bs_type == BlackScholesTypes.PSOR:
                 v = black_scholes_fd_PSOR(spot_price=spot_price,
                                           time_to_expiry=time_to_expiry,
                                           strike_price=strike_price,
